@@ -220,9 +220,10 @@ var codecWanted = map[string][]string{
 	"tlcp": {"readUint8LengthPrefixed", "readUint16LengthPrefixed", "readUint24LengthPrefixed", "readUint64", "tlcpIsCompleteMessage",
 		"clientHelloMsg.unmarshal", "serverHelloMsg.unmarshal", "finishedMsg.unmarshal", "certificateVerifyMsg.unmarshal",
 		"clientHelloMsg.marshal", "serverHelloMsg.marshal", "finishedMsg.marshal", "certificateVerifyMsg.marshal",
-		"certificateMsg.marshal", "serverKeyExchangeMsg.marshal", "clientKeyExchangeMsg.marshal", "serverHelloDoneMsg.marshal"},
-	// (certificateRequestMsg.marshal writes the message through a moving window `y := x[k:]` of the result: value
-	// semantics cannot express that and the alias analysis refuses it; it stays with model + correspondence)
+		"serverKeyExchangeMsg.marshal", "clientKeyExchangeMsg.marshal", "serverHelloDoneMsg.marshal"},
+	// (certificateMsg.marshal and certificateRequestMsg.marshal write the message through a moving window `y := x[k:]`
+	// of the result: value semantics cannot express that and the alias analysis refuses them; they stay with
+	// model + correspondence)
 	"dtlcp": {"readUint8LengthPrefixed", "readUint16LengthPrefixed", "readUint24LengthPrefixed", "readUint64", "dtlcpIsCompleteMessage",
 		"dtlcpUnmarshalHeader", "clientHelloMsg.unmarshal", "serverHelloMsg.unmarshal", "helloVerifyRequestMsg.unmarshal",
 		"finishedMsg.unmarshal", "certificateVerifyMsg.unmarshal",
@@ -231,7 +232,7 @@ var codecWanted = map[string][]string{
 		"certificateVerifyMsg.messageType", "certificateMsg.messageType", "serverKeyExchangeMsg.messageType",
 		"clientKeyExchangeMsg.messageType", "serverHelloDoneMsg.messageType",
 		"clientHelloMsg.marshal", "serverHelloMsg.marshal", "helloVerifyRequestMsg.marshal", "finishedMsg.marshal", "certificateVerifyMsg.marshal",
-		"certificateMsg.marshal", "serverKeyExchangeMsg.marshal", "clientKeyExchangeMsg.marshal", "serverHelloDoneMsg.marshal"},
+		"serverKeyExchangeMsg.marshal", "clientKeyExchangeMsg.marshal", "serverHelloDoneMsg.marshal"},
 }
 
 const cbStubs = `
